@@ -9,97 +9,97 @@ PY = '/venv/bin/python'
 CHECKS = {
     'C01': dict(
         technique='explicit-state BFS over real SimulatedBroker histories vs exact Fraction ledger',
-        text='Explicit-state BFS over every history of account/portfolio transfers (incl. sub-cent amounts and the quoted rounded balance), portfolio creation, order submission, clock updates and quote changes up to the stated depth, from four initial states (empty, funded, long, short with negative cash) under several fee models (zero, percentage, sub-half-cent commissions) and base currencies (USD, GBP, EUR), executed on the real broker with every intermediate state read back; after every transition master/portfolio cash, the balances of the other currencies, account totals, the event history (cents rule), history_to_df and global conservation are compared with an exact Fraction ledger. Plus every cycle of <= 2 events repeated 40-400 times (count-dependent behaviour). Plus ledgers of more than 10 000 (thorough: 25 000) entries with amounts that are not whole cents.',
+        text='Explicit-state BFS over every history of account/portfolio transfers (incl. sub-cent amounts and the quoted rounded balance), portfolio creation, order submission, clock updates and quote changes up to the stated depth, from four initial states (empty, funded, long, short with negative cash) under several fee models (zero, percentage, sub-half-cent commissions) and base currencies (USD, GBP, EUR), executed on the real broker with every intermediate state read back; after every transition master/portfolio cash, the balances of the other currencies, account totals, the event history (cents rule), history_to_df and global conservation are compared with an exact Fraction ledger. Plus every cycle of <= 2 events repeated 40-400 times (count-dependent behaviour). Plus ledgers of more than 10 000 (thorough: 25 000) entries with amounts that are not whole cents. Orders reusing a user-chosen id are part of the alphabet; accounts with 5-40 portfolios are checked.',
         note='Trusted: the harness ledger (Fractions), the stub data handler, the recorder wrapped around Portfolio.transact_asset. Values outside the alphabet are not covered.',
         design='5/C01'),
     'C02': dict(
         technique='explicit-state BFS over real broker/portfolio histories vs exact holdings ledger',
-        text='BFS over histories of submissions, clock updates (marks then fills), quote switches and portfolio-level price marks on two portfolios holding two assets (one with a mixed-case symbol); a complete tree of Portfolio.transact_asset / update_market_value_of_asset histories incl. lots of a million with residuals of a few shares; long periodic histories. After every transition holdings membership, quantity, market value at the last price seen, total market value and equity are compared with the ledger built from the fills as recorded. Plus wide books (6-11 open positions out of 12 assets): every close-one / open-another swap in both orders, read at every state and only at the end.',
+        text='BFS over histories of submissions, clock updates (marks then fills), quote switches and portfolio-level price marks on two portfolios holding two assets (one with a mixed-case symbol); a complete tree of Portfolio.transact_asset / update_market_value_of_asset histories incl. lots of a million with residuals of a few shares; long periodic histories. After every transition holdings membership, quantity, market value at the last price seen, total market value and equity are compared with the ledger built from the fills as recorded. Plus wide books (6-11 open positions out of 12 assets): every close-one / open-another swap in both orders, read at every state and only at the end. One initial state has the portfolios created in the reverse of their id order.',
         note='Trusted: harness ledger, stub data handler (mid = (bid+ask)/2), transact_asset recorder. Close-to-zero, re-open and flip-through-zero are reachable within depth 2 by construction of the quantities (2,3,5).',
         design='5/C02'),
     'C04': dict(
         technique='explicit-state BFS over submit/clock-update interleavings with real SimulatedExchange',
-        text='BFS over all interleavings of submissions (2 portfolios x 2 assets x buy/sell, also orders reusing a user-chosen id) with clock updates to every instant of a 10-instant horizon (both boundaries, one second either side, weekend) and quote switches (incl. a penny quote); per transition the pending queues and the exact set/order of fills. Plus: every day of a year (four years in thorough) x 13 boundary times through real fills, long periodic histories, and single batches of up to 800 orders. Plus cash bands: a buy submitted with cash just below / at / above the cost of the shares and of shares + fees under three charging fee models.',
+        text='BFS over all interleavings of submissions (2 portfolios x 2 assets x buy/sell, also orders reusing a user-chosen id) with clock updates to every instant of a 10-instant horizon (both boundaries, one second either side, weekend) and quote switches (incl. a penny quote); per transition the pending queues and the exact set/order of fills. Plus: every day of a year (four years in thorough) x 13 boundary times through real fills, long periodic histories, and single batches of up to 800 orders. Plus cash bands: a buy submitted with cash just below / at / above the cost of the shares and of shares + fees under three charging fee models. Events include orders created earlier than they are submitted; accounts with 5-40 portfolios in one update.',
         note='Trusted: reference exchange hours computed from datetime fields; pending orders are read from SimulatedBroker.open_orders. Cross-portfolio same-side order is not compared.',
         design='5/C04'),
     'C05': dict(
         technique='exhaustive product enumeration of fills on the real broker vs documented fee rule',
-        text='Full product of 50 fee configurations (incl. sub-basis-point rates) x 5 quote tables (crossed, sub-dollar, very large / penny) x assets x signed quantities x open instants, plus buy+sell batches, two live brokers used alternately, and update times given in other time zones: price side, commission = (c+t) x |round(price x qty)|, the amount actually debited from cash, non-negativity, symmetry and time stamp. Plus the account fee model replaced after portfolios exist (fills in old and new portfolios charged by the model configured when they happen).',
+        text='Full product of 50 fee configurations (incl. sub-basis-point rates) x 5 quote tables (crossed, sub-dollar, very large / penny) x assets x signed quantities x open instants, plus buy+sell batches, two live brokers used alternately, and update times given in other time zones: price side, commission = (c+t) x |round(price x qty)|, the amount actually debited from cash, non-negativity, symmetry and time stamp. Plus the account fee model replaced after portfolios exist (fills in old and new portfolios charged by the model configured when they happen). A quote table whose products lie within a quarter of a cent of a half unit is included.',
         note='Trusted: stub data handler with bid != ask; exact Fraction arithmetic for the expected commission; ties in consideration rounding accept both neighbours.',
         design='5/C05'),
     'C15': dict(
         technique='explicit-state BFS for the reachable states + exhaustive fault injection at every state',
-        text='Reachable states of valid broker histories (3 initial states incl. a portfolio with two assets; events incl. direct portfolio credits and price marks stamped later than the broker clock) x every refusal kind: negative / tiny negative / excess / epsilon-excess amounts, unknown and duplicate ids, unsupported currency, earlier timestamps (also written in another time zone), refusals stamped later than the portfolio clock, negative price marks, fills the position refuses, broker updates below any clock: documented error type, no silent acceptance, full snapshot equality and a one-step differential. Other spellings of supported currency codes (usd, Gbp) must be refused or accepted consistently.',
+        text='Reachable states of valid broker histories (3 initial states incl. a portfolio with two assets; events incl. direct portfolio credits and price marks stamped later than the broker clock) x every refusal kind: negative / tiny negative / excess / epsilon-excess amounts, unknown and duplicate ids, unsupported currency, earlier timestamps (also written in another time zone), refusals stamped later than the portfolio clock, negative price marks, fills the position refuses, broker updates below any clock: documented error type, no silent acceptance, full snapshot equality and a one-step differential. Other spellings of supported currency codes (usd, Gbp) must be refused or accepted consistently. Earlier instants of round kinds (midnight of the clock day, top of the hour) are part of the fault menu.',
         note='Trusted: snapshot covers exactly the observables the statement lists; private clocks are not compared. One fault per path (a refused fault is proved to change nothing, so sequences reduce to this case).',
         design='5/C15'),
     'C03': dict(
         technique='complete tree enumeration of fill/mark histories on real Position and Portfolio objects',
-        text='Complete trees of fill/mark histories on the real Position object and through Portfolio.transact_asset (positions discarded at zero and re-opened): generic decimals depth 4, large magnitudes (1e6 lots, residual 5), negative commissions, fills the position refuses, and every cycle of <= 2 events repeated 60-2000 times; on every prefix the P&L identities are compared with an exact cash-flow ledger. All realisable running net-sign paths are shown covered. Also with non-integer lots (>= 1 unit) and with NumPy scalar arguments.',
+        text='Complete trees of fill/mark histories on the real Position object and through Portfolio.transact_asset (positions discarded at zero and re-opened): generic decimals depth 4, large magnitudes (1e6 lots, residual 5), negative commissions, fills the position refuses, and every cycle of <= 2 events repeated 60-2000 times; on every prefix the P&L identities are compared with an exact cash-flow ledger. All realisable running net-sign paths are shown covered. Also with non-integer lots (>= 1 unit) and with NumPy scalar arguments. A tree in which fills and marks share one timestamp is included.',
         note='Decides the identities on a generic decimal alphabet and every control path up to k fills, not for all reals; no random long sequences (sampling is another family).',
         design='5/C03'),
     'C10': dict(
         technique='exhaustive input-grid enumeration of the real long-only sizer vs exact budget inequalities',
-        text='Full product equity x buffer x fee rate x weight vectors (1-3 assets; unnormalised, sparse, all-zero, near-unity sums, ints and floats) x price vectors (incl. sub-cent digits) on ONE sizer object per group - all weight vectors, then changed quotes at the same timestamp, an asset subset, withdrawn funds: q is a non-negative int with q*p+fee <= allocation < (q+1)*p+fee; refusal grids for negative weights, buffers outside [0,1], NaN prices, also through the QuantTradingSystem / BacktestTradingSession wiring. Plus re-assignment of the buffer on the live sizer and weight vectors of 8-40 assets.',
+        text='Full product equity x buffer x fee rate x weight vectors (1-3 assets; unnormalised, sparse, all-zero, near-unity sums, ints and floats) x price vectors (incl. sub-cent digits) on ONE sizer object per group - all weight vectors, then changed quotes at the same timestamp, an asset subset, withdrawn funds: q is a non-negative int with q*p+fee <= allocation < (q+1)*p+fee; refusal grids for negative weights, buffers outside [0,1], NaN prices, also through the QuantTradingSystem / BacktestTradingSession wiring. Plus re-assignment of the buffer on the live sizer and weight vectors of 8-40 assets. Plus an invested phase (the target traded through the broker, then sized again) and one weights dict edited in place.',
         note='Trusted: Fraction arithmetic of the reference; results within 1e-9 of a floor boundary accept both neighbours.',
         design='5/C10'),
     'C11': dict(
         technique='exhaustive input-grid enumeration of the real long/short sizer vs the exact affordability band of the statement',
-        text='As C10 for the long/short sizer: int quantities with the sign of the weight, truncation toward zero, maximality to within one currency unit, gross exposure <= L*E*(1+f), on one sizer object per group with changing quotes / assets / equity; refusal grids for non-positive leverage (also through the system wiring) and NaN prices. Plus re-assignment of the leverage on the live sizer and weight vectors of 8-40 assets.',
+        text='As C10 for the long/short sizer: int quantities with the sign of the weight, truncation toward zero, maximality to within one currency unit, gross exposure <= L*E*(1+f), on one sizer object per group with changing quotes / assets / equity; refusal grids for non-positive leverage (also through the system wiring) and NaN prices. Plus re-assignment of the leverage on the live sizer and weight vectors of 8-40 assets. Plus one weights dict edited in place between calls.',
         note='Trusted: Fraction arithmetic of the reference. No exact quantity is demanded beyond the statement: any whole number that is affordable and maximal to within one currency unit passes; points where that band holds two numbers are counted in boundary_ambiguous.',
         design='5/C11'),
     'C12': dict(
         technique='exhaustive calendar enumeration of the real simulation engine vs independent date arithmetic',
-        text='Every start date of the window (quick: 447 consecutive days + a window across 1969/70; thorough: the 28-year cycle, Feb 1900/2100) x range lengths x start/end times x all four pre/post flags, plus ranges of 1-3 years from month starts of 2014-2021: the emitted stream is compared event by event with a datetime.date reference; engines are iterated again after a full and after an abandoned pass; end < start must raise. The calendars are enumerated again in child processes whose local time zone (TZ) is Tokyo / New York / London / Kiritimati, and on windows around and after the day of the run and in 2090.',
+        text='Every start date of the window (quick: 447 consecutive days + a window across 1969/70; thorough: the 28-year cycle, Feb 1900/2100) x range lengths x start/end times x all four pre/post flags, plus ranges of 1-3 years from month starts of 2014-2021: the emitted stream is compared event by event with a datetime.date reference; engines are iterated again after a full and after an abandoned pass; end < start must raise. The calendars are enumerated again in child processes whose local time zone (TZ) is Tokyo / New York / London / Kiritimati, and on windows around and after the day of the run and in 2090. Ordered sequences of 3-4 clocks over overlapping and disjoint ranges are run in one process each.',
         note='Trusted: datetime.date weekday arithmetic. End time of day never before the start time of day (quantifier).',
         design='5/C12'),
     'C13': dict(
         technique='exhaustive calendar enumeration of the real rebalance schedules vs independent date arithmetic + clock membership',
-        text='The same calendar enumeration (incl. ranges of 1-3 years and starts with a sub-second part) for WeeklyRebalance x 5 weekdays, DailyRebalance, EndOfMonthRebalance (each x pre-market flag) and BuyAndHoldRebalance: exact date sets, stamps, strict order, and membership of every instant in the real clock stream for the same range; invalid weekdays refused. The same in child processes with a non-UTC local time zone and on windows around / after the day of the run.',
+        text='The same calendar enumeration (incl. ranges of 1-3 years and starts with a sub-second part) for WeeklyRebalance x 5 weekdays, DailyRebalance, EndOfMonthRebalance (each x pre-market flag) and BuyAndHoldRebalance: exact date sets, stamps, strict order, and membership of every instant in the real clock stream for the same range; invalid weekdays refused. The same in child processes with a non-UTC local time zone and on windows around / after the day of the run. The clock is peeked at (abandoned iteration) before it is read.',
         note='Range membership at date granularity; start time of day <= 14:30.',
         design='5/C13'),
     'C06': dict(
         technique='exhaustive dataset x query enumeration on the real CSV data source vs list-based point-in-time lookup + truncation differential',
-        text='Every CSV dataset over a 5-day window with weekend/leap-day gaps (row subsets x missing-cell patterns x row orders x adjusted/unadjusted) and files whose rows lie decades apart (1950-2099), loaded by the real CSVDailyBarDataSource; every query instant around every row (12 times of day incl. both boundaries, one second and fractions of a second either side) is compared with a reference lookup and the handler views (one and two sources), asked in ascending, descending and zig-zag order and in other time zones on fresh source objects, and - without any expected value - with the same query on the file truncated to rows dated <= t.',
+        text='Every CSV dataset over a 5-day window with weekend/leap-day gaps (row subsets x missing-cell patterns x row orders x adjusted/unadjusted) and files whose rows lie decades apart (1950-2099), loaded by the real CSVDailyBarDataSource; every query instant around every row (12 times of day incl. both boundaries, one second and fractions of a second either side) is compared with a reference lookup and the handler views (one and two sources), asked in ascending, descending and zig-zag order and in other time zones on fresh source objects, and - without any expected value - with the same query on the file truncated to rows dated <= t. Plus assets of one source whose files differ only in the days in between, asked alternately, and files of hundreds of rows.',
         note='Trusted: the reference lookup (python lists). Lone-missing Close with Adj Close present is excluded (undefined).',
         design='5/C06'),
     'C17': dict(
         technique='exhaustive prefix-closed enumeration of equity curves vs list-based definitions + metamorphic scaling',
-        text='Every curve grown from 100 by a step alphabet up to 6-7 observations on 4 calendars, curves with moves of 1e-6, and year-long periodic curves: real performance functions, JSONStatistics (file round trip, also as benchmark_curve) and TearsheetStatistics (also on a frame derived from one it already processed) vs list-based definitions; scalings x2 (bit-for-bit), x3.7, x1e7, x1e-5. Plus rendered tearsheets (plot_results under Agg): every number printed for the strategy and for a benchmark starting earlier / later / together equals the JSON export.',
+        text='Every curve grown from 100 by a step alphabet up to 6-7 observations on 4 calendars, curves with moves of 1e-6, and year-long periodic curves: real performance functions, JSONStatistics (file round trip, also as benchmark_curve) and TearsheetStatistics (also on a frame derived from one it already processed) vs list-based definitions; scalings x2 (bit-for-bit), x3.7, x1e7, x1e-5. Plus rendered tearsheets (plot_results under Agg): every number printed for the strategy and for a benchmark starting earlier / later / together equals the JSON export. Allocation tables with leading all-NaN rows; curves of 1 300 (2 610) observations.',
         note='Drawdown definition evaluated on the reported cumulative series (float-noise safe). Order of aggregate groups is not compared.',
         design='5/C17'),
     'C08': dict(
         technique='exhaustive configuration/schedule enumeration of complete real sessions vs independent reference simulator',
-        text='Full Cartesian product of weight vectors (1-3 assets, long-only and signed, incl. weights needing six decimals), price-path shapes, 8 schedules, 7 start alignments, fees and cash levels (incl. one where targets toggle between 0 and 1 share and a 50 M account), 70-day and 13-month sessions, sessions with event printing on, an idle second portfolio, and an unrelated market traded earlier in the process: each complete BacktestTradingSession is compared fill by fill, cash, holdings and equity point by point with refmodel.Backtest (Fractions, written from the documented rules). Markets in which one symbol is held by two data sources, the first-listed starting inside the session, are included; same-instant fills are compared as a set with the sells-first rule.',
+        text='Full Cartesian product of weight vectors (1-3 assets, long-only and signed, incl. weights needing six decimals), price-path shapes, 8 schedules, 7 start alignments, fees and cash levels (incl. one where targets toggle between 0 and 1 share and a 50 M account), 70-day and 13-month sessions, sessions with event printing on, an idle second portfolio, and an unrelated market traded earlier in the process: each complete BacktestTradingSession is compared fill by fill, cash, holdings and equity point by point with refmodel.Backtest (Fractions, written from the documented rules). Markets in which one symbol is held by two data sources, the first-listed starting inside the session, are included; same-instant fills are compared as a set with the sells-first rule. Markets with exchange holidays are included.',
         note='Trusted: the reference simulator. Sessions where the rule hits an exact floor/rounding boundary are skipped and counted.',
         design='5/C08'),
     'C14': dict(
         technique='exhaustive start/end/burn-in/schedule enumeration of complete real sessions vs calendar reference + ledger replay',
-        text='Full product of start (7 consecutive days x 00:00/14:30), length, burn-in (none, before start, every day x boundary times incl. 21:00 / 21:01) and 8 rebalance kinds, plus 70-day sessions and the no-burn-in sessions repeated after the burn-in ones: construction instants, fill instants, equity dates/values (ledger replay) and both user tables, which are also modified by the caller and asked for again. Plus sessions that straddle or lie after the day of the run, in 2090 and in 1975.',
+        text='Full product of start (7 consecutive days x 00:00/14:30), length, burn-in (none, before start, every day x boundary times incl. 21:00 / 21:01) and 8 rebalance kinds, plus 70-day sessions and the no-burn-in sessions repeated after the burn-in ones: construction instants, fill instants, equity dates/values (ledger replay) and both user tables, which are also modified by the caller and asked for again. Plus sessions that straddle or lie after the day of the run, in 2090 and in 1975. The sessions are also run with a SignalsCollection handed to the session.',
         note='Trusted: datetime calendar reference. Tables only consulted with >= 1 rebalance and a non-empty curve (quantifier).',
         design='5/C14'),
     'C16': dict(
         technique='explicit-state BFS to fixpoint over price streams on the real signals + exhaustive session cadence enumeration',
-        text="Part 1: for each signal class and lookback subset the search over append(asset, price) streams closes (state = true trailing window U actual deque contents) - assets known at creation, late assets, and an asset whose name extends another one's. Part 2: complete sessions with a real SignalsCollection (two lookbacks) over start alignments, lengths, every universe-entry variant of a second asset in both mapping orders, and a handler that was given a universe: every signal value (lookbacks 1, 2, 12, every member) is read through __call__ at every daily rebalance by a recording alpha model and compared with the definition over exactly the closes since entry. Cadence sessions also run with a burn-in well after the start.",
+        text="Part 1: for each signal class and lookback subset the search over append(asset, price) streams closes (state = true trailing window U actual deque contents) - assets known at creation, late assets, and an asset whose name extends another one's. Part 2: complete sessions with a real SignalsCollection (two lookbacks) over start alignments, lengths, every universe-entry variant of a second asset in both mapping orders, and a handler that was given a universe: every signal value (lookbacks 1, 2, 12, every member) is read through __call__ at every daily rebalance by a recording alpha model and compared with the definition over exactly the closes since entry. Cadence sessions also run with a burn-in well after the start. Sessions on a universe object that already served a session; 40 assets on one signal object.",
         note='Trusted: list-based definitions. Buffer contents (AssetPriceBuffers.prices) only refine the canonical key of part 1 when present; no verdict depends on how observations are stored.',
         design='5/C16'),
     'C19': dict(
         technique='exhaustive grids (membership, optimisers) + exhaustive entry-time x schedule enumeration of complete real sessions',
-        text='All entry maps over 3 assets (in UTC, New-York and Tokyo time) x every single, ascending and ordered pair of query instants on one universe object, universes of 10-64 assets, all weight dictionaries through both optimisers, the full product schedule x sizing x entry time of a late asset as complete sessions (also on pre-queried universe objects), and a static universe with signals and late data. NaN and None weights are part of the optimiser grid.',
+        text='All entry maps over 3 assets (in UTC, New-York and Tokyo time) x every single, ascending and ordered pair of query instants on one universe object, universes of 10-64 assets, all weight dictionaries through both optimisers, the full product schedule x sizing x entry time of a late asset as complete sessions (also on pre-queried universe objects), and a static universe with signals and late data. NaN and None weights are part of the optimiser grid. Sessions on a universe object that already served a session with signals.',
         note='Order of the dynamic universe list not compared.',
         design='5/C19'),
     'C07': dict(
         technique='exhaustive (configuration x cut day x future rewrite) enumeration of pairs of complete real sessions, bit-for-bit prefix comparison',
-        text='For every market (late-starting asset, missing cells, gaps with equal row counts, blank leading cells, zero-volume bars, a second data source) and every configuration of alpha {fixed, single-signal, momentum top-1, SMA trend, inverse vol via real signals} x universe x 5 rebalance kinds x sizing x fee x burn-in, the real session is run on the full data and on every rewritten world (every cut day incl. weekends x future rows removed / scaled / blanked / constant / reversed), each world in its own directory and on its own source objects; everything dated <= T must be bit-identical. A market with an exchange holiday on the business month end is part of the list.',
+        text='For every market (late-starting asset, missing cells, gaps with equal row counts, blank leading cells, zero-volume bars, a second data source) and every configuration of alpha {fixed, single-signal, momentum top-1, SMA trend, inverse vol via real signals} x universe x 5 rebalance kinds x sizing x fee x burn-in, the real session is run on the full data and on every rewritten world (every cut day incl. weekends x future rows removed / scaled / blanked / constant / reversed), each world in its own directory and on its own source objects; everything dated <= T must be bit-identical. A market with an exchange holiday on the business month end is part of the list. Pairs of sessions on one shared handler (the first starting later) are compared across worlds too.',
         note='Differential oracle, no expected values; comparison only between two runs of the same code in one interpreter. Quick thins the configuration product to one third (every value of every dimension kept); thorough is the full product.',
         design='5/C07'),
     'C09': dict(
         technique='explicit-state BFS over rebalance rounds on the real construction model, sizer and broker',
-        text='BFS over rebalance rounds on the real PortfolioConstructionModel + sizer + broker: universe subset x alpha weight dictionary (subset / superset / disjoint, zero weights, an asset of no universe) x price table; orders = target - held for exactly universe U held U alpha keys, allocation row, holdings after the fills. Five initial holdings (incl. a one-share penny holding), numpy-string symbols, and 50 M accounts where the target moves by a few shares in millions. Plus a 40-asset universe with ten names weighted per round over three rotating rounds.',
+        text='BFS over rebalance rounds on the real PortfolioConstructionModel + sizer + broker: universe subset x alpha weight dictionary (subset / superset / disjoint, zero weights, an asset of no universe) x price table; orders = target - held for exactly universe U held U alpha keys, allocation row, holdings after the fills. Five initial holdings (incl. a one-share penny holding), numpy-string symbols, and 50 M accounts where the target moves by a few shares in millions. Plus a 40-asset universe with ten names weighted per round over three rotating rounds. Plus rounds whose orders are still queued when the next construction runs.',
         note='The sizer is trusted as a function (decided by C10/C11). Stub universe/alpha/data handler.',
         design='5/C09'),
     'C18': dict(
         technique='stateless choice-sequence (deviation-bounded) exploration of set-iteration order and order-id rank + hash-seed subprocesses + shared-source histories',
-        text='(1) ChoiceSet injected as set/frozenset into all qstrader modules and uuid4 replaced by a rank-choosing seam: every execution with <= 2 deviations must give one digest; (2) fresh interpreters under hash seeds realising all 6 orders of the witness set; (3) process histories: ordered pairs of configurations on the same memoised source, another market first, the same directory rewritten, the same universe object twice, a burst of queries - each compared with the digest from a pristine process. Configurations include a late-data market and two data sources. Process histories also include 10^k - {0..3} orders created earlier in the process (k up to 6).',
+        text='(1) ChoiceSet injected as set/frozenset into all qstrader modules and uuid4 replaced by a rank-choosing seam: every execution with <= 2 deviations must give one digest; (2) fresh interpreters under hash seeds realising all 6 orders of the witness set; (3) process histories: ordered pairs of configurations on the same memoised source, another market first, the same directory rewritten, the same universe object twice, a burst of queries - each compared with the digest from a pristine process. Configurations include a late-data market and two data sources. Process histories also include 10^k - {0..3} orders created earlier in the process (k up to 6). Configurations over the same dates written from 00:00 and with the end as a plain day.',
         note='Set literals/comprehensions cannot be intercepted in-process (covered by the hash-seed runs only). Digest = fills without order ids, equity curve, target allocations with key order.',
         design='5/C18'),
 }
